@@ -1148,7 +1148,7 @@ func main() {
 	r := &runner{w: w, rng: rng}
 
 	if *cold {
-		r.raceRound("cold", 8, 4)
+		r.raceRound("cold", 8, 12)
 		r.flush()
 		w.Close()
 		fmt.Printf("events=%d\n", w.N())
@@ -1180,7 +1180,7 @@ func main() {
 		r.blockScenario("tip", r.randTip(), "tip")
 	}
 	for i := 0; i < *nrace; i++ {
-		r.raceRound("race", 6, 5)
+		r.raceRound("race", 8, 12)
 	}
 	r.flush()
 	w.Close()
